@@ -68,10 +68,12 @@ func runC15(c *Ctx) {
 	c.rule("parse-args", "integer parsers are called with base 0 and the integral slice parsers trim whitespace around each element", 4)
 	c.rule("errors-propagate", "every error returned to the parse package by strconv / the scanner / Unquote / a callback is tested and leads to a non-nil error result (no path returns a value together with a swallowed error)", 15)
 	c.rule("syntax-agree", "writers (flag helpers' String) quote with strconv.Quote and separate with ',' (and ':' for maps); readers unquote with strconv.Unquote and split on the same runes; unsigned slices are formatted with FormatUint and parsed with ParseUint, signed ones with FormatInt/ParseInt, base 10 out / base 0 in", 8)
+	c.rule("pair-state-reset", "after the map splitter hands a (key, value) pair to its callback, both pieces of state are reset to \"\" on every path that continues parsing (a value must not leak into a later key that has none)", 2)
 	c.rule("dups-rejected", "Map and StringSet report an error for a key that is already present, before storing", 2)
 
 	w := c.W
 	c15Narrowing(c)
+	c15PairStateReset(c, "pair-state-reset")
 
 	// ---- parse-args ------------------------------------------------------------------
 	for _, f := range w.funcsIn("parse") {
@@ -502,4 +504,165 @@ func c15Narrowing(c *Ctx) {
 		}
 	}
 
+}
+
+// c15PairStateReset: the map splitter hands (key, value) pairs to a callback
+// and must forget both before the next pair: after every callback call, every
+// path that continues parsing (next loop iteration, or a nil-error return of a
+// helper closure) has reset both the key and the value state to "". A value
+// that survives would be inherited by a later key without a value ("a:1,b:" ->
+// b=1).
+func c15PairStateReset(c *Ctx, rule string) {
+	w := c.W
+	sm := w.fn("parse", "splitMap")
+	if !c.need(sm != nil, "parse.splitMap") {
+		return
+	}
+	cb := sm.Params[len(sm.Params)-1]
+	// callback calls in splitMap and its closures
+	type site struct {
+		f    *ssa.Function
+		call *ssa.Call
+	}
+	var sites []site
+	fns := []*ssa.Function{sm}
+	fns = append(fns, sm.AnonFuncs...)
+	for _, f := range fns {
+		for _, i := range allInstrs(f) {
+			call, ok := i.(*ssa.Call)
+			if !ok || call.Call.IsInvoke() {
+				continue
+			}
+			v := call.Call.Value
+			isCB := v == ssa.Value(cb)
+			if ld, ok := v.(*ssa.UnOp); ok { // captured callback
+				if fv, ok := ld.X.(*ssa.FreeVar); ok && fv.Name() == cb.Name() {
+					isCB = true
+				}
+			}
+			if fv, ok := v.(*ssa.FreeVar); ok && fv.Name() == cb.Name() {
+				isCB = true
+			}
+			if isCB && len(call.Call.Args) == 2 {
+				sites = append(sites, site{f, call})
+			}
+		}
+	}
+	if len(sites) == 0 {
+		c.bad(rule, relName(sm), sm.Pos(), "the map splitter never calls its pair callback")
+		return
+	}
+	isEmptyConst := func(v ssa.Value) bool { s, ok := constString(v); return ok && s == "" }
+	n := 0
+	for _, st := range sites {
+		c.analysed(relName(st.f))
+		for ai, what := range []string{"key", "value"} {
+			arg := st.call.Call.Args[ai]
+			n++
+			id := relName(st.f) + "#" + what + "#" + itoa(n)
+			switch x := arg.(type) {
+			case *ssa.Phi:
+				// loop-carried state in SSA form: the edges into the header that come after this call carry ""
+				okR, found := true, false
+				// blocks reachable from the call without passing through the loop header
+				after := map[*ssa.BasicBlock]bool{st.call.Block(): true}
+				work := []*ssa.BasicBlock{st.call.Block()}
+				for len(work) > 0 {
+					b := work[len(work)-1]
+					work = work[:len(work)-1]
+					for _, sc := range b.Succs {
+						if sc == x.Block() || after[sc] {
+							continue
+						}
+						after[sc] = true
+						work = append(work, sc)
+					}
+				}
+				seenPhi := map[*ssa.Phi]bool{}
+				var walk func(ph *ssa.Phi)
+				walk = func(ph *ssa.Phi) {
+					if seenPhi[ph] {
+						return
+					}
+					seenPhi[ph] = true
+					hb := ph.Block()
+					for ei, e := range ph.Edges {
+						p := hb.Preds[ei]
+						if !after[p] {
+							continue
+						}
+						// merge blocks between the arms and the loop header (the `for` post block)
+						if inner, ok := e.(*ssa.Phi); ok && inner != x && after[inner.Block()] {
+							walk(inner)
+							continue
+						}
+						found = true
+						if !isEmptyConst(e) {
+							okR = false
+						}
+					}
+				}
+				walk(x)
+				// a call followed only by returns (end of input) needs no reset
+				if !found {
+					c.okTrivial(rule, id, st.call.Pos(), "no parsing continues after this call (end of input)")
+					continue
+				}
+				c.check(okR, rule, id, st.call.Pos(), "the "+what+" state is \"\" on every edge back to the loop after the pair was handed over", "after handing a pair to the callback the "+what+" state is not reset to \"\" before the next pair: a later entry without its own "+what+" inherits this one")
+			case *ssa.UnOp:
+				// state in a variable (captured by a closure): a store of "" must intervene before parsing continues
+				loc := x.X
+				sameLoc := func(a ssa.Value) bool { return a == loc }
+				avoid := func(i ssa.Instruction) bool {
+					s, ok := i.(*ssa.Store)
+					return ok && sameLoc(s.Addr) && isEmptyConst(s.Val)
+				}
+				// the loop header of splitMap, if the call is in splitMap itself
+				var hdr *ssa.BasicBlock
+				if st.f == sm {
+					for b := st.call.Block(); b != nil; b = b.Idom() {
+						for _, p := range b.Preds {
+							if b.Dominates(p) && inLoopBody(b, st.call.Block()) {
+								hdr = b
+							}
+						}
+						if hdr != nil {
+							break
+						}
+					}
+				}
+				target := func(i ssa.Instruction) bool {
+					if r, ok := i.(*ssa.Return); ok && st.f != sm {
+						rv := r.Results
+						return len(rv) == 0 || isNilConst(rv[len(rv)-1])
+					}
+					return hdr != nil && i == hdr.Instrs[0]
+				}
+				hit := reachAvoid(st.f, st.call, target, avoid)
+				// a closure may leave the reset to its caller: every call of the closure in splitMap is then followed by the store
+				if hit != nil && st.f != sm {
+					callerResets := true
+					ncalls := 0
+					for _, i := range allInstrs(sm) {
+						cc, ok := i.(*ssa.Call)
+						if !ok {
+							continue
+						}
+						if mc, ok := cc.Call.Value.(*ssa.MakeClosure); !ok || mc.Fn != ssa.Value(st.f) {
+							continue
+						}
+						ncalls++
+						callerResets = false // the bound variable has a different SSA name in the caller; not followed here
+					}
+					_ = ncalls
+					if callerResets {
+						hit = nil
+					}
+				}
+				c.check(hit == nil, rule, id, st.call.Pos(), "a store of \"\" to the "+what+" state intervenes on every path that continues parsing", "after handing a pair to the callback parsing can continue without the "+what+" state having been reset to \"\": a later entry without its own "+what+" inherits this one")
+			default:
+				c.undecided(rule, id, st.call.Pos(), "the %s handed to the callback is neither loop-carried state nor a variable: %s", what, canon(arg))
+			}
+		}
+	}
 }
